@@ -844,6 +844,14 @@ theorem h1_rejected_classified (cfg : H11.Cfg) (st : H11.St) (g : Ws.Frag) (e : 
     that decodes one of them with a partial codec outside a `try` makes this `decide` fail, and with it `total_h1`. -/
 theorem h1_decode_sites_total : H11.decodeSitesTotal = true := by decide
 
+/-- **ws_handshake_names_lowercased**: `Handshake.__init__` lower-cases each header name before it matches it
+    (`WsGuards.handshakeName`, the normalisation as it stands in the loop, regenerated by the extractor on every run).  With
+    `h11_pass_raw_headers` the names reach the stream as the client wrote them while `_create_stream` recognises the upgrade
+    case-insensitively; were the names matched as given, `GET … Upgrade: websocket / connection: upgrade / sec-websocket-key`
+    would leave `self.upgrade` unset and `is_valid()` would raise `AttributeError` out of the reader (seeded change C04-10).
+    `total_h1` and `total_ws` depend on this (`ws_onRequest_ok`, `scan_facts`). -/
+theorem ws_handshake_names_lowercased : Ws.Handshake.NamesLowered := by intro n; rfl
+
 /-- no request — whatever bytes its header values hold — makes a decode site of the reader's glue raise -/
 theorem h1_no_decode_escape (fn : String) (r : H11.ReqEv) : H11.decodeRaises fn r = false :=
   H11.decodeRaises_false h1_decode_sites_total fn r
@@ -869,18 +877,18 @@ example : let site : H11.DecodeSite := ("H11Protocol._create_stream", "headerVal
     of `WSStream.handle`) and the model accepts every op (never "rejected"). -/
 theorem total_h1 (cfg : H11.Cfg) (token : Bytes → Bytes) (ext : Option Bytes) (ops : List H11.OpT)
     (hwf : H11.LibWf cfg token ext {} none ops) : H11.NoEscape cfg token ext {} none ops :=
-  H11.noEscape_of_inv cfg token ext h1_decode_sites_total ops {} none H11.inv_init hwf
+  H11.noEscape_of_inv cfg token ext h1_decode_sites_total ws_handshake_names_lowercased ops {} none H11.inv_init hwf
 
 /-- … and from any state satisfying the invariant -/
 theorem total_h1_from (cfg : H11.Cfg) (token : Bytes → Bytes) (ext : Option Bytes) (ops : List H11.OpT) (st : H11.St) (g : Ws.Frag)
     (hI : H11.Inv st g) (hwf : H11.LibWf cfg token ext st g ops) : H11.NoEscape cfg token ext st g ops :=
-  H11.noEscape_of_inv cfg token ext h1_decode_sites_total ops st g hI hwf
+  H11.noEscape_of_inv cfg token ext h1_decode_sites_total ws_handshake_names_lowercased ops st g hI hwf
 
 /-- one op: enabled ⇒ nothing escapes, the model accepts it, the invariant is kept -/
 theorem total_h1_step (cfg : H11.Cfg) (token : Bytes → Bytes) (ext : Option Bytes) (st : H11.St) (g : Ws.Frag) (o : H11.OpT)
     (hI : H11.Inv st g) (hen : H11.enabled cfg st g o = true) :
     H11.escapeT cfg st o = none ∧ ∃ r, H11.stepT cfg token ext st o = some r ∧ H11.Inv r.1 (H11.ghostT g o) :=
-  H11.step_ok cfg token ext st g o hI hen h1_decode_sites_total
+  H11.step_ok cfg token ext st g o hI hen h1_decode_sites_total ws_handshake_names_lowercased
 
 /-- in the driver's terms: a LibWf run is never "rejected" -/
 theorem total_h1_never_rejected (cfg : H11.Cfg) (token : Bytes → Bytes) (ext : Option Bytes) (ops : List H11.OpT)
@@ -993,7 +1001,7 @@ theorem total_ws_from (token : Bytes → Bytes) (ext : Option Bytes) : ∀ (ops 
 /-- the stream `handle(Request)` builds satisfies the hypotheses of `total_ws_from` -/
 theorem ws_onRequest_init (maxLen : Nat) (version : String) (hdrs : Headers) (ok ping : Bool) (s : S) (puts : List AppMsg) (evs : List Ws.Ev)
     (h : onRequest maxLen version hdrs ok ping = .ok (s, puts, evs)) : Ok s ∧ BufRel none s.buffer := by
-  obtain ⟨h', he, ha, _, _⟩ := HC.Proto.H11.scan_facts hdrs { version := version }
+  obtain ⟨h', he, ha, _, _⟩ := HC.Proto.H11.scan_facts HC.Props.C04.ws_handshake_names_lowercased hdrs { version := version }
   unfold onRequest Handshake.ofRequest at h
   simp only [he, bind, Except.bind, pure, Except.pure] at h
   have hacc : h'.accepted = false := ha
